@@ -1,15 +1,17 @@
 import SimilarVerif.Model.TextDiff
+import SimilarVerif.Model.F32
 /-! `get_close_matches` (`src/text/mod.rs`) with `upper_seq_ratio` / `QuickSeqRatio` (`src/text/utils.rs`).
-`f32` arithmetic is Lean's native `Float32` (the same IEEE-754 operations); theorems about ranking
-are stated over exact rationals (see Props/C18). After the `fix:` commit the heap key is
-`ratio.to_bits()`. -/
+`f32` values are IEEE-754 binary32 BIT PATTERNS (natural numbers `< 2^32`) computed by the soft-float
+model `SimilarVerif.F32` (Model/F32.lean) with exact natural-number arithmetic, so that the kernel can
+reason about them (Lemmas/F32.lean, Props/C18); the driver cross-checks them against the hardware
+floats on every request. After the `fix:` commit the heap key is `ratio.to_bits()`. -/
 namespace SimilarVerif
 
-/-- `2.0 * a as f32 / b as f32`, or `1.0` when `b = 0` -/
-def ratioF (a b : Nat) : Float32 := if b = 0 then 1.0 else 2.0 * a.toFloat32 / b.toFloat32
+/-- bits of `2.0 * a as f32 / b as f32`, or of `1.0` when `b = 0` -/
+def ratioF (a b : Nat) : Nat := F32.ratio a b
 
-/-- `upper_seq_ratio` -/
-def upperSeqRatio (l1 l2 : Nat) : Float32 := ratioF (min l1 l2) (l1 + l2)
+/-- `upper_seq_ratio` (bits) -/
+def upperSeqRatio (l1 l2 : Nat) : Nat := ratioF (min l1 l2) (l1 + l2)
 
 /-- a counter per distinct token (the `HashMap<&T, i32>` of the Rust, as an association list) -/
 abbrev Counts := List (Bytes × Int)
@@ -40,18 +42,19 @@ def quickLoop (word : Counts) : (available : Counts) → List Bytes → Nat
     (if 0 < n then 1 else 0) + quickLoop word (av.set x (n - 1)) xs
 
 /-- `QuickSeqRatio::calc`: matches over (distinct tokens of the word + length of the candidate) -/
-def quickRatio (word cand : List Bytes) : Float32 :=
+def quickRatio (word cand : List Bytes) : Nat :=
   let wc := countsOf word
   ratioF (quickLoop wc [] cand) (wc.length + cand.length)
 
-/-- `TextDiff::from_slices(&seq1, &seq2).ratio()` -/
-def diffRatio (seq1 seq2 : List Bytes) : Res Float32 :=
+/-- `TextDiff::from_slices(&seq1, &seq2).ratio()` (bits) -/
+def diffRatio (seq1 seq2 : List Bytes) : Res Nat :=
   match textDiffOps .myers false seq1.toArray seq2.toArray {} with
   | .error e => .error e
   | .ok (ops, _) => let (a, b) := ratioPair ops seq1.length seq2.length; .ok (ratioF (a / 2) b)
 
-/-- candidates that pass the filters, with their heap key -/
-def closeScored (tok : Bytes → List Bytes) (word : Bytes) (cutoff : Float32) : List Bytes → Res (List (UInt32 × Bytes))
+/-- candidates that pass the filters, with their heap key; `cutoff`: the bits of the user's `f32` (any
+pattern: negative, zero, subnormal, infinite, NaN); the comparisons are the IEEE ones -/
+def closeScored (tok : Bytes → List Bytes) (word : Bytes) (cutoff : Nat) : List Bytes → Res (List (UInt32 × Bytes))
   | [] => .ok []
   | p :: ps =>
     let seq1 := tok word
@@ -59,11 +62,11 @@ def closeScored (tok : Bytes → List Bytes) (word : Bytes) (cutoff : Float32) :
     match closeScored tok word cutoff ps with
     | .error e => .error e
     | .ok rest =>
-      if upperSeqRatio seq1.length seq2.length < cutoff || quickRatio seq1 seq2 < cutoff then .ok rest
+      if F32.lt (upperSeqRatio seq1.length seq2.length) cutoff || F32.lt (quickRatio seq1 seq2) cutoff then .ok rest
       else
         match diffRatio seq1 seq2 with
         | .error e => .error e
-        | .ok r => if r ≥ cutoff then .ok ((r.toBits, p) :: rest) else .ok rest
+        | .ok r => if F32.ge r cutoff then .ok ((r.toUInt32, p) :: rest) else .ok rest
 
 /-- lexicographic order of byte strings (`Ord for str` / `[u8]`) -/
 def bytesLt : Bytes → Bytes → Bool
@@ -82,7 +85,7 @@ def insertSorted (x : UInt32 × Bytes) : List (UInt32 × Bytes) → List (UInt32
 def sortHeap (l : List (UInt32 × Bytes)) : List (UInt32 × Bytes) := l.foldr insertSorted []
 
 /-- `get_close_matches(word, possibilities, n, cutoff)`; `tok` = `tokenize_chars` of the text type -/
-def getCloseMatches (tok : Bytes → List Bytes) (word : Bytes) (cands : List Bytes) (n : Nat) (cutoff : Float32) : Res (List Bytes) :=
+def getCloseMatches (tok : Bytes → List Bytes) (word : Bytes) (cands : List Bytes) (n : Nat) (cutoff : Nat) : Res (List Bytes) :=
   match closeScored tok word cutoff cands with
   | .error e => .error e
   | .ok scored => .ok (((sortHeap scored).take n).map (·.2))
